@@ -477,6 +477,12 @@ def run_check(mod, prop_id, tier, seed, replay=None):
     else:
         ctx.tie_failures.append({"kind": "build", "what": "extracted model does not build against the current source",
                                  "detail": failed_files or build["steps"]})
+        # the relations between public calls need no model: still look for a failing input of the property
+        if hasattr(mod, "run_without_model") and not replay:
+            try:
+                mod.run_without_model(ctx)
+            except Exception:  # noqa: BLE001
+                harness_error = traceback.format_exc()
     # With every theorem of the property holding for the model, an input on which the implementation differs from a
     # model that IS the documented formula is a concrete input on which the property fails (modules opt in: TIE_IS_SPEC).
     if proof_ok and ctx.tie_failures and not ctx.violations and harness_error is None and getattr(mod, "TIE_IS_SPEC", False):
@@ -485,7 +491,8 @@ def run_check(mod, prop_id, tier, seed, replay=None):
                                    "case": t["case"], "expected": t["model"], "got": t["implementation"]})
     broken = (not proof_ok) or bool(ctx.tie_failures) or harness_error is not None
     searched = False
-    if broken and not ctx.violations and build.get("driver_ok") and harness_error is None and hasattr(mod, "run") and not replay:
+    if broken and not ctx.violations and harness_error is None and not replay and \
+            (build.get("driver_ok") or hasattr(mod, "run_without_model")):
         # the property is no longer shown to hold: search harder for a concrete failing input
         searched = True
         for k in range(3):
@@ -493,7 +500,10 @@ def run_check(mod, prop_id, tier, seed, replay=None):
             c2.deadline = time.time() + budget
             c2.build = build
             try:
-                (getattr(mod, "search", None) or mod.run)(c2)
+                if build.get("driver_ok"):
+                    (getattr(mod, "search", None) or mod.run)(c2)
+                else:
+                    mod.run_without_model(c2)
             except Exception:  # noqa: BLE001
                 pass
             ctx.evaluations += c2.evaluations
